@@ -28,14 +28,17 @@ ASSUMPTIONS = [
 ENZ = "BsaI"
 
 
+VARIANTS = ["cited", "plain", "cited-rotated", "plain-rotated", "cited-aligned", "plain-aligned"]
+
+
 def bounds(tier):
-    return dict(depth=3 if tier == "quick" else 4, variants=["cited", "plain", "cited-rotated", "plain-rotated"],
+    return dict(depth=3 if tier == "quick" else 4, variants=VARIANTS,
                 operations=[o[0] for o in OPS], world="vector, m1..m3 (chain), twin of m3, off-chain module, wrong-end module, invalid module, vector with equal overhangs")
 
 
 def goals(tier):
     return ["op-product", "op-warning", "op-InvalidSequence", "op-DuplicateModules", "op-MissingModule", "op-injected-exception",
-            "cited-world", "rotated-world", "retry-after-failure"]
+            "cited-world", "rotated-world", "retry-after-failure", "origin-on-first-base-of-fragment"]
 
 
 # ---------------------------------------------------------------------------------------------
@@ -62,6 +65,7 @@ def build_world(variant):
     M, V = gen.generic_classes(ENZ)
     cited = variant.startswith("cited")
     rotated = variant.endswith("rotated")
+    aligned = variant.endswith("aligned")      # origin exactly on the first base of the fragment the library cuts out
     base = asm.base_scenario(ENZ, 3)
     vec, mods = asm.pieces_to_plasmids(base)
     o = base["ovs"]
@@ -76,6 +80,9 @@ def build_world(variant):
         r = CircularRecord(Seq(s), id=name, name=name, description="desc " + name, features=feats, annotations=ann)
         if rotated:
             r = r >> (len(s) - t0 - 2 if name != "v" else 2)      # origin inside the target / inside the backbone
+        if aligned:
+            # modules: origin on the first base of the upstream overhang; vectors: on the first base of the downstream overhang
+            r = r >> ((len(s) - t0) if not name.startswith("v") else (len(s) - (g.ov + len(base["vbb"]))))
         recs[name] = r
 
     vb = len(base["vbb"])
@@ -225,7 +232,7 @@ def _short(o):
 
 def units(tier):
     us = []
-    for variant in ("cited", "plain", "cited-rotated", "plain-rotated"):
+    for variant in VARIANTS:
         for first in OPS:
             us.append((variant, first[0]))
     return us
@@ -260,6 +267,8 @@ def run_unit(unit, st, tier):
         st.goal("cited-world")
     if variant.endswith("rotated"):
         st.goal("rotated-world")
+    if variant.endswith("aligned"):
+        st.goal("origin-on-first-base-of-fragment")
     st.extra["distinct_input_snapshots_max"] = max(st.extra["distinct_input_snapshots_max"], len(allsnaps))
     st.sample(dict(variant=variant, history=[first, "ok"]))
 
